@@ -259,6 +259,51 @@ def main():
             except Exception as ex:  # noqa: BLE001
                 res.fail(f"local solver comparison raises rate={law_}", f"{type(ex).__name__}: {str(ex)[:120]}", identr)
 
+    # ---------------- a behaviour on an anisotropic law whose stiffness is replaced afterwards (Set_C, with or without the compliance; the C setter) ----------------
+    # "only its C is read": below yield the response is C eps, beyond yield both local solvers agree, the von Mises flow stays traceless and the
+    # stress is on the surface - with the law as it is NOW
+    for how_ in ("Set_C(C1, False)", "Set_C(C1, False, update_S=False)", "law.C = C1"):
+        identA = dict(behavior="VonMises + Linear hardening on Models.Elastic.Anisotropic(3, C0)", change=how_)
+        res.case(("anisotropic law replaced", how_))
+        try:
+            RA_ = np.array([[rng.randint(-2, 2) / 4 for _ in range(6)] for _ in range(6)])
+            CA0_ = 100.0 * (np.eye(6) + 0.25 * (RA_ @ RA_.T))
+            RB_ = np.array([[rng.randint(-2, 2) / 4 for _ in range(6)] for _ in range(6)])
+            CA1_ = 70.0 * (np.eye(6) + 0.5 * (RB_ @ RB_.T))
+            outsA = {}
+            for solver_ in ("auto", "newton"):
+                lawA = Models.Elastic.Anisotropic(3, CA0_.copy(), False)
+                bA = Behavior(3, lawA, yieldSurface=Yield.VonMises(0.4), hardening=IsotropicHardening.Linear(20.0), solver=solver_)
+                bA.Integrate(fe(rand_path(rng, 3, 2, 0.01)[3]))           # the behaviour has been used with the first law
+                if how_ == "Set_C(C1, False)":
+                    lawA.Set_C(CA1_.copy(), False)
+                elif how_ == "law.C = C1":
+                    lawA.C = CA1_.copy()
+                else:
+                    lawA.Set_C(CA1_.copy(), False, update_S=False)
+                if solver_ == "auto":
+                    dirA = rand_path(np.random if False else rng, 3, 2, 0.01)[3]
+                    dirA = dirA / np.abs(dirA).max()
+                outsA[solver_] = {}
+                for label_, amp_ in (("below yield", 1e-4), ("beyond yield", 2e-2)):
+                    sg_, Ct_, z_, ok_ = bA.Integrate(fe(amp_ * dirA))
+                    outsA[solver_][label_] = (np.asarray(sg_)[0, 0].copy(), bool(np.asarray(ok_).all()))
+            CnowA = np.asarray(lawA.C, float)
+            el_ = CnowA @ (1e-4 * dirA)
+            for solver_ in ("auto", "newton"):
+                gotA = outsA[solver_]["below yield"][0]
+                if not (np.abs(gotA - el_).max() <= 1e-9 * (1 + np.abs(el_).max())):
+                    res.fail(f"behaviour after the stiffness of its anisotropic law was replaced: not elastic below yield solver={solver_}",
+                             f"after {how_}: stress {gotA.tolist()} for a strain well below yield, C eps = {el_.tolist()} (difference {np.abs(gotA - el_).max():.2e})", dict(identA, solver=solver_, strain=(1e-4 * dirA).tolist()))
+                    break
+            else:
+                a_, b_ = outsA["auto"]["beyond yield"], outsA["newton"]["beyond yield"]
+                if a_[1] and b_[1] and not (np.abs(a_[0] - b_[0]).max() <= 1e-6 * (1 + np.abs(b_[0]).max())):
+                    res.fail("behaviour after the stiffness of its anisotropic law was replaced: local solvers disagree",
+                             f"after {how_}: default solver and solver='newton' both converge, stresses differ by {np.abs(a_[0] - b_[0]).max():.2e}", dict(identA, strain=(2e-2 * dirA).tolist()))
+        except Exception as ex:  # noqa: BLE001
+            res.fail("behaviour on a replaced anisotropic law raises", f"{type(ex).__name__}: {str(ex)[:150]}", identA)
+
     # ---------------- a simulation with a rate-dependent material: every advertised result can be read after a saved step ----------------
     for ps_ in (False, True):
         identp = dict(sim="InElastic", behavior="VM+linear+Norton", planeStress=ps_, dt=0.1)
